@@ -51,4 +51,17 @@ CHECKS["C11"] = dict(
     note="WASI descriptor tables and standard streams are not part of this model (they are exercised by the WASI checks); instances come from one module shape.",
 )
 
+CHECKS["C06"] = dict(
+    technique="TLA+ model of call trees with failures (Calls.tla: guest -> host -> guest nesting, traps, stack overflow, host panics, exits, scripted host function) checked by TLC; enumerated and simulated call histories replayed on both engines in supervised child processes; result kind/value, persisted effects and closed flags of every instance compared after each call",
+    text="TLC enumerates all pairs of top-level calls (and triples over a core set) drawn from plain operations, five trap kinds, finite and unbounded recursion with three frame sizes, calls into another instance's function, and host calls whose script returns, panics, exits the module, or calls back into a guest function (which may itself trap, exit or go through the host again) and then propagates or swallows the failure; plus stack overflow followed by reuse of the SAME function object, and seeded longer histories. The driver executes each history on the interpreter and the compiler (same and fresh function objects), in child processes so that a crash is attributed to its history, and after every call compares the returned kind (ok value, trap kind, stack overflow, panic value, exit code), the effect counters of both instances and their closed flags with the model.",
+    design_ref="§4 C06",
+    note="Error kinds recognised by message text; overflow depth not compared; the model follows wazero in running a function of an already-exited module and reporting the exit error when it returns.",
+)
+CHECKS["C20"] = dict(
+    technique="same TLA+ call-tree model (Calls.tla) predicting the listener event stream (before/after/abort with parameter, result and call chain); streams recorded from real listeners on both engines compared event by event; second-compilation histories with another listener factory",
+    text="For every call history of Calls.tla TLC also computes the events each function entry, return and unwinding must produce (properly bracketed - checked as an invariant), the first parameter / result each event carries and the call chain the stack iterator must list at each before-event. The driver installs a recording FunctionListenerFactory (all functions, and a subset) on both engines and compares count, order, function, carried value and chain of every event, and that results are those of the run without listeners (C06 histories). History before the call is part of the behaviour: the same binaries compiled first with another factory (same listened functions; subsets differing at a low / high function index) in the same runtime.",
+    design_ref="§4 C20",
+    note="Events of calls ending in stack overflow are not compared; chains are not compared for calls into an instance that was closed earlier; tail calls are not in the model.",
+)
+
 NOT_YET = "check not built yet in this round (work in progress; see DESIGN.md §4)"
